@@ -658,15 +658,41 @@ func (cx *Ctx) checkDestination(r *Report, fnKey, listField string) {
 	lvf := cx.newVFlow(fnKey, fn)
 	bad := ""
 	n := 0
+	isDestT := func(t string) bool { return strings.HasPrefix(t, "<samlp.") && strings.HasSuffix(t, ">.Destination") }
+	isLocT := func(t string) bool {
+		return strings.HasPrefix(t, "<md.") && strings.Contains(t, "."+listField+"[") && strings.HasSuffix(t, "].Location")
+	}
 	for i := range aps {
 		p := &aps[i]
-		isNil, _ := fx.errNilness(p, fx.retVal(p, 0))
+		rv := fx.retVal(p, 0)
+		isNil, nonNil := fx.errNilness(p, rv)
+		atoms := p.Atoms
+		if tc, isCall := fx.throughIdentity(rv).(*ssa.Call); isCall && !isNil && !nonNil {
+			// the verdict of a helper is handed on (`return verifyDestination(request.Destination, list)`): the path
+			// accepts when the helper does, under what holds on the helper's accepting paths
+			if sa := fx.callSummaryAtoms(tc, true); sa != nil {
+				isNil = true
+				atoms = append(append([]Atom{}, atoms...), sa...)
+			}
+		}
 		if !isNil {
 			continue
 		}
 		n++
 		good := false
-		for _, a := range p.Atoms {
+		// (inside a helper the element is a copy taken while ranging over the list: the comparison then names the
+		// element type, and the loop bound names the list)
+		overList := false
+		for _, a := range atoms {
+			if a.Op == "LT" && !a.Neg && strings.Contains(a.B, "."+listField+")") {
+				overList = true
+			}
+		}
+		isElemLocT := func(t string) bool { return overList && t == "<md.EndpointType>.Location" }
+		for _, a := range atoms {
+			if a.Op == "EQ" && !a.Neg && (isDestT(a.TA) && (isLocT(a.TB) || isElemLocT(a.TB)) || isDestT(a.TB) && (isLocT(a.TA) || isElemLocT(a.TA))) {
+				good = true // established inside a helper, in terms of the arguments of its call
+			}
 			if a.Op == "EMPTY" && !a.Neg && strings.HasPrefix(a.TA, "<samlp.") && strings.HasSuffix(a.TA, ">.Destination") {
 				good = true
 			}
@@ -687,7 +713,7 @@ func (cx *Ctx) checkDestination(r *Report, fnKey, listField string) {
 			}
 		}
 		if !good {
-			bad = "nil is returned although Destination is non-empty and was not found equal to a " + listField + " location (" + atomsString(p.Atoms) + ")"
+			bad = "nil is returned although Destination is non-empty and was not found equal to a " + listField + " location (" + atomsString(atoms) + ")"
 		}
 	}
 	r.Check(bad == "" && n > 0, "R-GUARD", fnKey, w.FnPos(fn), fmt.Sprintf("%d accepting paths: Destination empty, or equal to the Location of an element of metadata.%s", n, listField), bad)
@@ -711,9 +737,29 @@ func (cx *Ctx) checkDestinationAccepts(r *Report, fnKey string) {
 	isDest := func(t string) bool { return strings.HasPrefix(t, "<samlp.") && strings.HasSuffix(t, ">.Destination") }
 	bad := ""
 	sawMatch := false
+	type vpath struct {
+		atoms         []Atom
+		isNil, nonNil bool
+	}
+	var vps []vpath
 	for i := range aps {
 		p := &aps[i]
-		isNil, nonNil := fx.errNilness(p, fx.retVal(p, 0))
+		rv := fx.retVal(p, 0)
+		isNil, nonNil := fx.errNilness(p, rv)
+		if tc, isCall := fx.throughIdentity(rv).(*ssa.Call); isCall && !isNil && !nonNil {
+			// the verdict of a helper handed on: one accepting and one refusing continuation
+			sa, fa := fx.callSummaryAtoms(tc, true), fx.callSummaryAtoms(tc, false)
+			if sa != nil || fa != nil {
+				vps = append(vps, vpath{append(append([]Atom{}, p.Atoms...), sa...), true, false})
+				vps = append(vps, vpath{append(append([]Atom{}, p.Atoms...), fa...), false, true})
+				continue
+			}
+		}
+		vps = append(vps, vpath{p.Atoms, isNil, nonNil})
+	}
+	for _, vp := range vps {
+		p := &APath{Atoms: vp.atoms}
+		isNil, nonNil := vp.isNil, vp.nonNil
 		named, matched := false, false
 		for _, a := range p.Atoms {
 			if a.Op == "EMPTY" && a.Neg && isDest(a.TA) {
@@ -784,6 +830,20 @@ func (cx *Ctx) checkDestinationContent(r *Report, hk, short, fnKey string) {
 	for i := 0; i < len(fns); i++ {
 		fns = append(fns, fns[i].AnonFuncs...)
 	}
+	// a helper the function hands the Destination to: the parameter that receives it stands for it
+	destParam := map[ssa.Value]bool{}
+	for _, c := range callsIn(fn) {
+		g := calleeOf(c)
+		if g == nil || g.Blocks == nil || g.Pkg != fn.Pkg || g == fn {
+			continue
+		}
+		for ai, a := range c.Common().Args {
+			if tp := fx.T(fx.path(a)); strings.HasPrefix(tp, "<samlp.") && strings.HasSuffix(tp, ">.Destination") && ai < len(g.Params) {
+				destParam[g.Params[ai]] = true
+				fns = append(fns, g)
+			}
+		}
+	}
 	for _, g := range fns {
 		for _, b := range g.Blocks {
 			for _, in := range b.Instrs {
@@ -792,7 +852,7 @@ func (cx *Ctx) checkDestinationContent(r *Report, hk, short, fnKey string) {
 					continue
 				}
 				for _, pair := range [][2]ssa.Value{{bo.X, bo.Y}, {bo.Y, bo.X}} {
-					if tp := fx.T(fx.path(pair[0])); !strings.HasPrefix(tp, "<samlp.") || !strings.HasSuffix(tp, ">.Destination") {
+					if tp := fx.T(fx.path(pair[0])); !destParam[pair[0]] && (!strings.HasPrefix(tp, "<samlp.") || !strings.HasSuffix(tp, ">.Destination")) {
 						continue
 					}
 					if _, isK := pair[1].(*ssa.Const); isK {
